@@ -720,10 +720,7 @@ where
         *single_item = num_items == 1;
         if *has_attr {
             match num_items {
-                0 => {}
-                1 => {
-                    fmt.write_str(" ")?;
-                }
+                0 | 1 => {}
                 _ => {
                     strategy.attr_padding().fmt(fmt)?;
                     fmt.write_str("{")?;
@@ -757,10 +754,14 @@ where
             strategy,
             ..
         } = &mut self;
-        if !*brace_written && !*has_attr && *single_item {
-            fmt.write_str("{")?;
-            strategy.start_block(1).fmt(fmt)?;
-            *brace_written = true;
+        if !*brace_written && *single_item {
+            if !*has_attr {
+                fmt.write_str("{")?;
+                strategy.start_block(1).fmt(fmt)?;
+                *brace_written = true;
+            } else if *first {
+                fmt.write_str(" ")?;
+            }
         }
         if *first {
             *first = false;
@@ -782,10 +783,18 @@ where
             fmt,
             brace_written,
             first,
+            has_attr,
             strategy,
             ..
         } = &mut self;
-        if *first {
+        if *has_attr && !*brace_written {
+            //Without an explicit body, the attributes would be read as part of the key.
+            strategy.attr_padding().fmt(fmt)?;
+            fmt.write_str("{")?;
+            strategy.start_block(1).fmt(fmt)?;
+            *brace_written = true;
+            *first = false;
+        } else if *first {
             *first = false;
         } else {
             fmt.write_str(",")?;
